@@ -36,12 +36,12 @@ TickTarget(s, class) ==
     [] class = "after" -> NMax(s.now ++ One, Boundary(s) ++ One)
     [] class = "late" -> s.now ++ (N(3) ** s.dur)
 
-\* the clock is anchored at genesis: the manager starts with epoch 0 at genesis (the harness configures start_epoch =
-\* (0, genesis)), the distributor's first epoch (id 1) starts at genesis; every later epoch starts a whole number of
+\* the clock is anchored at genesis: the manager starts with its first epoch (id `first`: 0, 1 or 5) at genesis (the harness
+\* configures start_epoch = (first, genesis)), the distributor's first epoch (id 1) starts at genesis; every later epoch starts a whole number of
 \* durations after it (the invariant proved for all parameters in apalache/Ap_Epochs.tla)
 ClockChecks(s) ==
   << <<"C20.start=genesis+elapsed-epochs*duration",
-        IF s.kind = "manager" THEN s.start = s.genesis ++ (s.id ** s.dur)
+        IF s.kind = "manager" THEN s.first \preceq s.id /\ s.start = s.genesis ++ ((s.id -- s.first) ** s.dur)
         ELSE Pristine(s) \/ (One \preceq s.id /\ s.start = s.genesis ++ ((s.id -- One) ** s.dur))>> >>
 
 StepChecks(s, t) ==
